@@ -743,7 +743,7 @@ def run_C05(ck):
             r = c['r']; calls = r.get('res', '').split(';')
             if any(x.endswith('panic') or ':panic' in x for x in calls): return 'streaming decoder panicked'
             fin = calls[-1]
-            if c.get('empty'):
+            if c.get('empty') or c.get('n') == 0:
                 return None if (fin == 'x:ok' and r.get('out') == '-') else 'zero total input must finish Ok with empty output'
             o = c['oneshot']['r']
             sv = 'ok' if fin == 'x:ok' and not any(x.startswith('W:err') for x in calls) else 'err'
@@ -1220,7 +1220,25 @@ def run_C14(ck):
             if last.split(':')[:3] != f.split(':')[:3]:
                 return 'decompress after reset (%s) differs from a freshly constructed decoder (%s)' % (last[:40], f[:40])
             return None
-        judge(ck, c, ['res'], oracle, 'both')
+        def clean_entries(res):
+            # keep the entries whose decoder state at the start of the operation is one the model represents exactly:
+            # fresh, after a reset, or after a successful decompress
+            parts, keep, dirty = res.split(';'), [], False
+            for ptxt in parts:
+                if ptxt.startswith('d:'):
+                    if not dirty: keep.append(ptxt)
+                    else: keep.append('d:<state after a failed decompress: not modelled>')
+                    if ':err:' in ptxt or ':panic' in ptxt: dirty = True
+                else:
+                    keep.append(ptxt)
+                    if ptxt.startswith('r'): dirty = False
+            return ';'.join(keep)
+        c['m']['res'] = clean_entries(c['m'].get('res', '')); c['r_full'] = c['r'].get('res', '')
+        c['r']['res'] = clean_entries(c['r_full'])
+        judge(ck, c, ['res'], None, 'both')
+        c['r']['res'] = c['r_full']
+        bad = oracle(c)
+        if bad: ck.violation('oracle', bad, replay_dict(c))
 
 # ------------------------------------------------------------------ C15: streaming prefixes
 @prop('C15', 'well-formed LZMA streams x every / sampled prefix x chunkings, with allow_incomplete: the sink content observed after every write and the value returned by finish must be prefixes of the complete output, finish must succeed once header + 5 bytes are in, and the output must contain what the model derives from the prefix shortened by 64 bytes; non-trivial = prefix cuts the payload')
